@@ -58,8 +58,18 @@ static size_t g_arena_lo = 0;  // next free from the bottom
 static size_t g_arena_hi = 0;  // next free from the top (exclusive)
 static bool g_in_seam = false;
 
+static char* g_pool;
+static void pool_init();
+
 void alloc_set_mode(int mode)
 {
+    if (mode == AM_POOL) {
+        pool_init();
+        if (!g_pool)
+            mode = AM_MALLOC;
+        g_alloc_mode = mode;
+        return;
+    }
     if (mode != AM_MALLOC && g_arena == nullptr) {
         g_arena_size = (size_t)1 << 30;
         void* p = mmap(nullptr, g_arena_size, PROT_READ | PROT_WRITE, MAP_PRIVATE | MAP_ANONYMOUS | MAP_NORESERVE, -1, 0);
@@ -78,6 +88,76 @@ int alloc_get_mode() { return g_alloc_mode; }
 uint64_t alloc_total() { return g_alloc_total; }
 
 static inline bool in_arena(void* p) { return g_arena && (char*)p >= g_arena && (char*)p < g_arena + g_arena_size; }
+
+// --- AM_POOL ------------------------------------------------------------------------------------
+static size_t g_pool_size = 0, g_pool_top = 0;
+static void* g_pool_free[258];  // by (header + payload) size / 16, up to 4096 bytes; [257]: unused
+struct PoolLarge
+{
+    size_t total;
+    void* head;
+};
+static PoolLarge g_pool_large[128];
+static inline bool in_pool(void* p) { return g_pool && (char*)p >= g_pool && (char*)p < g_pool + g_pool_size; }
+static void pool_init()
+{
+    if (g_pool)
+        return;
+    g_pool_size = (size_t)8 << 30;
+    void* want = (void*)0x610000000000ull;  // fixed: must not depend on what the orchestrator has mapped at fork time
+    void* p = mmap(want, g_pool_size, PROT_READ | PROT_WRITE, MAP_PRIVATE | MAP_ANONYMOUS | MAP_NORESERVE | MAP_FIXED_NOREPLACE, -1, 0);
+    if (p == MAP_FAILED || p != want) {
+        if (p != MAP_FAILED)
+            munmap(p, g_pool_size);
+        g_pool_size = 0;
+        return;
+    }
+    g_pool = (char*)p;
+}
+static void* pool_alloc(size_t size)
+{
+    const size_t total = ((size + 15) & ~(size_t)15) + 16;
+    void** slot = nullptr;
+    if (total <= 4096)
+        slot = &g_pool_free[total / 16];
+    else
+        for (auto& l : g_pool_large)
+            if (l.total == total || l.total == 0) {
+                l.total = total;
+                slot = &l.head;
+                break;
+            }
+    char* blk = nullptr;
+    if (slot && *slot) {
+        blk = (char*)*slot;
+        *slot = *(void**)(blk + 16);  // the link lives in the payload of a free block
+    } else {
+        if (g_pool_top + total > g_pool_size)
+            return nullptr;
+        blk = g_pool + g_pool_top;
+        g_pool_top += total;
+    }
+    *(size_t*)blk = total;
+    return blk + 16;
+}
+static void pool_free(void* p)
+{
+    char* blk = (char*)p - 16;
+    const size_t total = *(size_t*)blk;
+    void** slot = nullptr;
+    if (total <= 4096)
+        slot = &g_pool_free[total / 16];
+    else
+        for (auto& l : g_pool_large)
+            if (l.total == total) {
+                slot = &l.head;
+                break;
+            }
+    if (!slot)
+        return;  // (an exotic size whose list is full: never reused)
+    *(void**)(blk + 16) = *slot;
+    *slot = blk;
+}
 
 static void* sim_alloc(size_t size, size_t align, bool nothrow)
 {
@@ -118,6 +198,10 @@ static void* sim_alloc(size_t size, size_t align, bool nothrow)
             }
         }
     }
+    if (g_alloc_mode == AM_POOL && g_pool && align <= 16) {
+        if (void* q = pool_alloc(size))
+            return q;
+    }
     void* p;
     if (g_alloc_mode == AM_PAD)
         size += 48;
@@ -138,6 +222,10 @@ static void sim_free(void* p) noexcept
 {
     if (!p || in_arena(p))
         return;
+    if (in_pool(p)) {
+        pool_free(p);
+        return;
+    }
     std::free(p);
 }
 
